@@ -4,10 +4,10 @@
 package l1
 
 import (
-	"sort"
 	"context"
 	"encoding/binary"
 	"fmt"
+	"sort"
 	"time"
 
 	abci "github.com/cometbft/cometbft/abci/types"
